@@ -166,6 +166,7 @@ def work(ctx, idx):
     bs, sc_s = exe_for(ctx, sc, 'fread')
     br, sc_r = exe_for(ctx, sc, 'read')
     wr.scenarios = 1
+    wr.stats['back-end:' + sc.flavor] += 1
     per_class = collections.Counter()
     hangs = 0
     for ii in range(cfg['inputs']):
